@@ -120,6 +120,7 @@ def gen_molecule(rng, ref, tier):
 
 
 class Runner:
+    # see run() / run_mixed()
     def __init__(self):
         from singlecellmultiomics.molecule import Molecule
         from singlecellmultiomics.fragment import Fragment
@@ -151,6 +152,23 @@ class Runner:
                 out['consensus'] = [{'c': str(k[0]), 'pos': int(k[1]), 'b': str(v)} for k, v in cons.items()]
             except Exception:      # keys / values that are not ((contig, position), base)
                 out['malformed_entries'] = True
+        return out
+
+    def run_mixed(self, ref, mol, order, first):
+        """The SAME molecule object (same Fragment objects) queried with dove_safe=first and then with the other setting, through
+        both return shapes each: a per-fragment or per-molecule memo that forgets the dove_safe argument shows up here."""
+        m = self.Molecule()
+        for k, i in enumerate(order):
+            reads = molgen.build_reads(self.hdr, ref, mol['chrom'], 'f%d_%d' % (i, k), mol['frags'][i - 1],
+                                       tags={'SM': 'cellA', 'RX': 'ACG', 'MX': 'verif'})
+            frag = self.Fragment(reads, assignment_radius=100000, umi_hamming_distance=0)
+            if not m.add_fragment(frag):
+                m._add_fragment(frag)
+        out = []
+        for j, dove in enumerate((first, not first)):
+            for path in ('plain', 'probs'):
+                out.append(dict(kind='alt', path=path, dove=dove, order=order, run_order=order, run_kind='mixed', mixed_first=first,
+                                incr=False, merge=False, requeried=j > 0 or path == 'probs', **self.query(m, dove, path)))
         return out
 
     def run(self, ref, mol, order, dove, kind, incremental=False, probs=True, merge=False):
@@ -261,6 +279,9 @@ def main():
                 if n > 1:
                     rng.shuffle(dbl)
                     go(dbl, dove, 'dup')
+            for first in ((tid % 2 == 0),):     # one object, both dove_safe settings; the order alternates between molecules
+                for r in runner.run_mixed(ref, mol, ident, first):
+                    emit(dict(r, ev='cons', tid=tid))
 
         if '--replay' in sys.argv:
             case = json.load(open(sys.argv[sys.argv.index('--replay') + 1]))
@@ -270,6 +291,10 @@ def main():
             for r in runner.run(ref, mol, ident, e['dove'], 'base', len(ident) > 1, probs=True):   # as in the original run
                 emit(dict(r, ev='cons', tid=1))
             kind = e.get('run_kind', e['kind'])
+            if kind == 'mixed':
+                for r in runner.run_mixed(ref, mol, e['run_order'], e['mixed_first']):
+                    emit(dict(r, ev='cons', tid=1))
+                return
             for r in runner.run(ref, mol, e.get('run_order', e['order']), e['dove'], 'perm' if kind == 'base' else kind,
                                 e.get('incr', False), probs=True, merge=e.get('merge', False)):
                 emit(dict(r, ev='cons', tid=1))
@@ -285,6 +310,9 @@ def main():
                 emit({'ev': 'mol', 'tid': tid, 'chrom': mol['chrom'], 'frags': mol['frags']})
                 for r in runner.run(ref, mol, [1], bool(s['dove']), 'base', False, probs=(tid % 4 == 0)):
                     emit(dict(r, ev='cons', tid=tid))
+                if tid % 8 == 0:
+                    for r in runner.run_mixed(ref, mol, [1], bool(s['dove'])):
+                        emit(dict(r, ev='cons', tid=tid))
             pool = {}
             for s in singles:
                 fr = s['frags'][0]
